@@ -5,8 +5,8 @@ CONSTANTS MaxFiles, Big, Seed, NRand     \* Seed / NRand: the seeded random fami
 \* Big     \* Big: member sizes around the 128 KiB copy chunk instead of the small residues
 VARIABLES kind, fset, fsz
 vars == <<kind, fset, fsz>>
-\* name pool built to hit the ordering corners: "a" "A" "B" "ab" "a_" "a.b" "Z9" "a-" ".a"
-Pool == << <<97>>, <<65>>, <<66>>, <<97,98>>, <<97,95>>, <<97,46,98>>, <<90,57>>, <<97,45>>, <<46,97>> >>      \* ... and ".a": a leading dot is part of the name
+\* name pool built to hit the ordering corners: "a" "A" "B" "ab" "a_" "a.b" "Z9" "a-" ".a" "b\a"
+Pool == << <<97>>, <<65>>, <<66>>, <<97,98>>, <<97,95>>, <<97,46,98>>, <<90,57>>, <<97,45>>, <<46,97>>, <<98,92,97>> >>      \* ... ".a": a leading dot is part of the name; "b\a": a backslash is an ordinary name character here
 Sizes == IF Big THEN {131071, 131072, 131073, 262144} ELSE {0, 1, 2, 3, 4, 5}
 Dirs == << <<>>, <<46,47>>, <<100,47>>, <<68,47>> >>          \* "", "./", "d/", "D/"
 OutName == <<111,46,118,111,108>>                             \* "o.vol"
@@ -53,7 +53,7 @@ Distinct(ixs) == \A i, j \in DOMAIN ixs : i # j => ixs[i] # ixs[j]
 \* ---- one TLC state per input: the file set (indices into the name pool, sizes) or a "self" case ------------------------------------------
 \* The model-level laws are INVARIANTs evaluated in every state; Export (an invariant that always holds) prints the state's scenario.
 \* ---- the seeded random family: names over letters of both cases, digits and the punctuation that sorts between / around the letters ----
-NameAlphabet == << 97, 98, 122, 65, 66, 90, 48, 57, 95, 45, 46, 91, 93, 94, 96, 126, 33, 40 >>      \* a b z A B Z 0 9 _ - . [ ] ^ ` ~ ! (
+NameAlphabet == << 97, 98, 122, 65, 66, 90, 48, 57, 95, 45, 46, 91, 93, 94, 96, 126, 33, 40, 92 >>      \* a b z A B Z 0 9 _ - . [ ] ^ ` ~ ! ( and the backslash
 RandName(r, i) == Draw(Seed * 101 + r, 10 + i, 1 + Below(Seed * 101 + r, 3, i, 7), NameAlphabet)
 RandSize(r, i) == LET c == Below(Seed * 101 + r, 4, i, 10) IN IF c = 0 THEN 0 ELSE IF c = 1 THEN 131070 + Below(Seed * 101 + r, 5, i, 5) ELSE Below(Seed * 101 + r, 6, i, 300)
 RandMembers(r) == [i \in 1..Below(Seed * 101 + r, 1, 0, 7) |-> [name |-> RandName(r, i), size |-> RandSize(r, i), data |-> << Blob(i, 0, RandSize(r, i)) >>, kind |-> Uncompressed]]
